@@ -1,5 +1,5 @@
     ensures
-        (forall|j: int| !prefix_matches(link_metablock, j, signer_short_key_id@)) ==> final(links_per_step)@ == old(links_per_step)@,   // [C02]
+        (forall|j: int| !prefix_matches(link_metablock, j, signer_short_key_id@)) ==> final(links_per_step)@ == old(links_per_step)@,   // [C02,C07]
         (exists|j: int| prefix_matches(link_metablock, j, signer_short_key_id@)) ==> exists|j: int| #[trigger] prefix_matches(link_metablock, j, signer_short_key_id@)
             && (forall|i: int| 0 <= i < j ==> !prefix_matches(link_metablock, i, signer_short_key_id@))
-            && final(links_per_step)@ == old(links_per_step)@.insert(link_metablock.signatures@[j].kid(), link_metablock),   // [C02]
+            && final(links_per_step)@ == old(links_per_step)@.insert(link_metablock.signatures@[j].kid(), link_metablock),   // [C02,C07]
